@@ -202,13 +202,13 @@ def run(ctx):
                 ok = all(any(dominates(b, e, r, dom) for e in errs) for r in rets)
                 ctx.check(ok, "R08.4", key + "-early-exit", loc(b, rets[0]),
                           "with validation `%s` enabled the function can return early without recording an error: a valid entry would lose output" % what)
-    ctx.floor("R08.4", "branches on validation switches", n4, 8)
+    ctx.floor("R08.4", "branches on validation switches", n4, 5)
 
     # ------------------------------------------------------------------ R08.7 a rejected entry leaves nothing behind (premise of "no output" and of transparency)
     import rules.c14 as c14
     before7 = len(ctx.instances)
     c14.run(ctx, only_fields=c02.buffer_field(F), rule_prefix="R08.7")
-    ctx.floor("R08.7", "buffers and per-set maps checked for reset-before-use", len([i for i in ctx.instances[before7:] if i["rule"] == "R08.7" and "clean-at-first-use" in i["instance"]]), 7)
+    ctx.floor("R08.7", "buffers and per-set maps checked for reset-before-use", len([i for i in ctx.instances[before7:] if i["rule"] == "R08.7" and "clean-at-first-use" in i["instance"]]), 5)
     # ------------------------------------------------------------------ R08.6 declared entry dimensions are registered before they are adopted
     VMS = registry_fields(F)
     ctx.floor("R08.6", "name-registry fields of the per-call writer", len(VMS), 1)
